@@ -1,12 +1,12 @@
 package props
 
 import (
-	"regexp"
 	"fmt"
 	"github.com/robfig/soy"
 	"github.com/robfig/soy/template"
 	"os"
 	"os/exec"
+	"regexp"
 	"strconv"
 	"strings"
 	"sync"
